@@ -91,7 +91,7 @@ def run_c20(tape, r, tier, sandbox):
             r.probes['robots_big'] += 1
         robots[o.key()] = {'mode': mode, 'text': text, 'k': tape.between(1, 2, 'rb.5xx.k'), 'exchanges': [], 'fetches': 0,
                            # bytes that are not UTF-8 somewhere in the file (a comment in a legacy encoding): the rules keep their meaning
-                           'raw_prefix': b'# robots.txt for caf\xe9 and \xfcber (legacy comment)\n' if tape.chance(1, 6, 'rb.legacy_bytes') else b''}
+                           'raw_prefix': tape.choice((b'', b'', b'', b'', b'# robots.txt for caf\xe9 and \xfcber (legacy comment)\n', b'\xef\xbb\xbf'), 'rb.legacy_bytes')}      # incl. a UTF-8 byte order mark
         if robots[o.key()]['raw_prefix']:
             r.probes['robots_with_non_utf8_bytes'] += 1
         r.probes.update({'robots_404': int(mode == '404'), 'robots_5xx': int(mode.startswith('5xx')), 'robots_redirect': int(mode == 'redirect')})
